@@ -119,9 +119,6 @@ example : gsum [((1 : Nat), (5 : Int)), (2, 7), (1, -2)] 1 = 3 := by decide
 `Model/Margins.lean` is the executable model of the recursive function (tied to the source by the
 driver op `margins`).  A label with margins is a pattern, `none` = `'All'`. -/
 
-theorem sum_laws : AggLaws (fun a b : Int => a + b) 0 :=
-  ⟨fun a b c => Int.add_assoc a b c, fun a b => Int.add_comm a b, fun a => Int.add_zero a⟩
-
 theorem omax_laws : AggLaws omax none := by
   refine ⟨?_, ?_, ?_⟩
   · intro a b c
